@@ -40,7 +40,8 @@ def task(rng, i, form, inp, timing, stages, cancel=None, compose=False, line=Non
          # variants that must be transparent to the laws: the input is an f_proxy of the future (f_ form), the
          # input's exception is an instance of a CancelledError subclass (a failure, not a cancellation)
          "proxy_input": bool(form == 1 and rng.random() < 0.25),
-         "orig_cancelled_error": bool(inp == 1 and rng.random() < 0.25)}
+         "orig_cancelled_error": bool(inp == 1 and rng.random() < 0.25),
+         "in_except": rng.random() < 0.25}
     strat = ["random", rng.randrange(10 ** 9), 0.6] if i % 4 else ["pct", rng.randrange(10 ** 9), 3, 250]
     gran = "line" if (line if line is not None else i % 5 == 0) else "sync"
     return {"scen": "maplaws", "params": p, "strat": strat, "gran": gran, "facts": facts_of(p)}
